@@ -315,13 +315,20 @@ func (h *harness) scaleWorlds(rng *rand.Rand, n, events int, streams int) {
 		t := newLight(5)
 		// populate: the initial layout, one heartbeat at a time (not part of the judged plan)
 		var rest []world.Delivery
-		refused := 0
+		refused, kept := 0, 0
 		for _, d := range plan {
 			if d.Snap.Step == 0 && d.Kind == "first" {
 				if t.Deliver(d.Snap) != nil {
 					refused++
 				}
+			} else if d.Snap.Step == 0 && kept%16 != 0 {
+				// duplicates / stale copies of the initial layout: one in 16 is kept (every judged
+				// delivery costs a full observation of the populated cluster)
+				kept++
 			} else {
+				if d.Snap.Step == 0 {
+					kept++
+				}
 				rest = append(rest, d)
 			}
 		}
